@@ -87,16 +87,18 @@ def query(m, op, g, rng):
         m.enable_boundary_connectivity()
         bc = m.boundary_connectivity
         pairs = lambda d: [[int(k), int(v)] for k, v in sorted(d.items())]
+        same = lambda sv, d: int(all(k in d and 0 <= d[k] < len(m.vertices) and bool(np.all(np.asarray(sv[k]) == np.asarray(m.vertices[d[k]]))) for k in range(len(sv))))
         b = {"F": [[int(v) for v in f] for f in bc.mesh.faces], "nv": len(bc.mesh.vertices), "E": [[int(a), int(b_)] for a, b_ in bc.mesh.edges],
              "b2mv": pairs(bc.b2m_vertex), "m2bv": pairs(bc.m2b_vertex), "b2mf": pairs(bc.b2m_face), "m2bf": pairs(bc.m2b_face),
-             "b2me": pairs(bc.b2m_edge), "m2be": pairs(bc.m2b_edge)}
+             "b2me": pairs(bc.b2m_edge), "m2be": pairs(bc.m2b_edge), "posok": same(bc.mesh.vertices, bc.b2m_vertex)}
         return [], [], b
     if op == "extract_boundary":
         import mouette as M
         surf, m2b, b2m = M.processing.extract_boundary_of_volume(m)
         pairs = lambda d: [[int(k), int(v)] for k, v in sorted(d.items())]
         b = {"F": [[int(v) for v in f] for f in surf.faces], "nv": len(surf.vertices), "E": [[int(a), int(b_)] for a, b_ in surf.edges],
-             "b2mv": pairs(b2m), "m2bv": pairs(m2b), "b2mf": [], "m2bf": [], "b2me": [], "m2be": []}
+             "b2mv": pairs(b2m), "m2bv": pairs(m2b), "b2mf": [], "m2bf": [], "b2me": [], "m2be": [],
+             "posok": int(all(k in b2m and bool(np.all(np.asarray(surf.vertices[k]) == np.asarray(m.vertices[b2m[k]]))) for k in range(len(surf.vertices))))}
         return [], [], b
     if op == "clear":
         c.clear()
@@ -270,6 +272,12 @@ def run(ctx):
                 if interior and min(interior) < max(used_on_border):
                     break
             kpool.append((Pv, Cv))
+    # a tetrahedron refined by five interior vertices numbered BEFORE its four corners (border ids 5..8: a set of four integers does not iterate in order)
+    E1, E2, E3, E4, E5, A_, B_, C_, D_ = range(9)
+    Pn = [[12, 12, 12], [15, 15, 3], [15, 15, 15], [3, 15, 15], [15, 3, 15], [0, 0, 0], [48, 0, 0], [0, 48, 0], [0, 0, 48]]
+    lvl1 = [([E1, B_, C_, D_], E3), ([A_, E1, C_, D_], E4), ([A_, B_, E1, D_], E5), ([A_, B_, C_, E1], E2)]
+    Cn = [[x if i != k else pt for i, x in enumerate(c)] for c, pt in lvl1 for k in range(4)]
+    kpool.append((Pn, Cn))
     for j, (P, C) in enumerate(kpool):
         cases.append({"id": "K-%d" % j, "given": {"P": P, "C": C, "sorted": 1, "family": "K", "container": conts[j % 4]}, "events": _history(rng)})
         if j % 3 == 0:       # the same complex a thousand times smaller (cells of volume ~1e-10)
